@@ -110,6 +110,8 @@ partial def placeV (st : Store) : SE → Option VRef
   | .list [.atom "row", m, i] => do (← placeM st m).row (← nat? i)
   | .list [.atom "col", m, j] => do (← placeM st m).column (← nat? j)
   | .list [.atom "diag", m] => do (← placeM st m).diag
+  | .list [.atom "tovec", .list [.atom "A", k]] => do (← st.matA[(← nat? k)]?).linear
+  | .list [.atom "tovec", .list [.atom "B", k]] => do (← st.matB[(← nat? k)]?).linear
   | _ => none
 
 mutual
